@@ -43,7 +43,10 @@ def units(tier, seed):
         add("inline", k, 1 if k < 3 else 4 if k == 3 else 16)
     if q and seed % 2 == 1:
         add("inline", 4, 16)
-    zoo = ["basic", "list", "strict_hb", "title", "fixed", "struct", "iso", "table", "topmarks", "attrs"]
+    for k in range(1, (3 if q else 4) + 1):
+        add("defnone3", k, 1 if k < 3 else 4 if k == 3 else 32)
+    zoo = ["basic", "list", "strict_hb", "title", "fixed", "struct", "iso", "table", "topmarks", "attrs", "footnote",
+           "chips"]
     for sid in zoo:
         out.append({"kind": "wrap", "sid": sid, "name": f"wrap/{sid}"})
     ids = schemas.fgen_ids()
@@ -55,6 +58,8 @@ def units(tier, seed):
     return out
 
 
+# r is generatable: every attribute has a default, one of them an explicit None
+c06.ALPHABETS["defnone3"] = (("a", "b", "r"), {"a": {}, "b": {}, "r": {"attrs": {"d": {"default": None}, "e": {"default": 0}}}})
 c06.ALPHABETS["required3"] = (("a", "b", "r"), {"a": {}, "b": {}, "r": {"attrs": {"d": {"default": 0}, "x": {}}}})
 
 
